@@ -16,7 +16,10 @@ from contracts import C03
 MOD = "bec2format.bf3file"
 MOD2 = "bec2format.bec2file"
 LEVEL = "fault_enumeration"
-ASSUMPTIONS = ["fault enumeration is bounded: the families below are complete only for the listed files"]
+ASSUMPTIONS = ["fault enumeration is bounded: the families below are complete only for the listed files",
+               "BEC2: the header carries no MAC, so a block the reader does not open comes back as an opaque "
+               "UnknownAuthBlock and is not compared; compared are the session key, the component content and every block "
+               "returned as an opened (typed) block - its selector / version / security code must be the original's"]
 
 
 def _files(seed, tier):
@@ -144,3 +147,146 @@ def _why(out):
     return "accepted different content" if out.returned else "%s: %s" % (type(out.exc).__name__, out.exc)
 
 
+
+
+# ---------------------------------------------------------------------------------------
+# BEC2: the same enumeration on files with authentication blocks.  What counts as "the original content" of a BEC2 file:
+# the session key, the component content, and every block the reader returns as an OPENED block (customer-key / ECC /
+# update object: key selector, version, security code).  The header itself carries no MAC: a block the reader does not
+# open is carried as an opaque UnknownAuthBlock and is NOT compared (stated limit: damage inside a block that is not
+# needed to obtain the key is invisible to any reader of this format).
+BEC2_SHAPES = [("cust",), ("ecc",), ("upd",), ("ecc", "upd"), ("upd", "cust"), ("cust", "ecc", "upd")]
+
+
+def fam_bec2_faults(seed, tier):
+    """authentic BEC2 files: one block of each kind (ECC with every key selector 0..3), two- and three-block headers;
+    decryptor sets: exactly the matching ones, plus ECC decryptors for EVERY selector 0..3 (the matching one not first);
+    faults: every header byte x {each single-bit flip, 00, FF, +1}, every proper prefix of the binary (quick: every
+    2nd), body bytes (quick: every 5th position), suffixes, text prefixes (quick: every 3rd)"""
+    import random
+    rnd = random.Random(seed + 44)
+    quick = tier != "thorough"
+    for shape in BEC2_SHAPES:
+        sels = (0, 1, 2, 3) if "ecc" in shape and len(shape) == 1 else (rnd.randrange(1, 4),) if "ecc" in shape else (0,)
+        for sel in sels:
+            z = rnd.choice([0, 1, 2])
+            d = dict(shape=list(shape), sel=sel, version=rnd.choice([0, 1, 7, 255]),
+                     sk=bytes(rnd.randrange(1, 256) for _ in range(16 - z)) + bytes(z),
+                     code=bytes(rnd.randrange(256) for _ in range(8)), ckey=bytes(rnd.randrange(256) for _ in range(16)))
+            for decs in ("matching", "all-selectors"):
+                if decs == "all-selectors" and "ecc" not in shape:
+                    continue
+                yield dict(d, decs=decs, fault="header-bytes")
+                if decs == "matching":
+                    yield dict(d, decs=decs, fault="prefixes", step=2 if quick else 1)
+                    yield dict(d, decs=decs, fault="body-bytes", step=5 if quick else 1)
+                    yield dict(d, decs=decs, fault="suffixes")
+                    yield dict(d, decs=decs, fault="text-prefixes", step=3 if quick else 1)
+
+
+_RCPT = {}
+
+
+def _rcpt(sel):
+    if sel not in _RCPT:
+        import bec2format
+        _RCPT[sel] = bec2format.generate_private_ecc_key()
+    return _RCPT[sel]
+
+
+def _bec2_view(M, g):
+    opened = []
+    for tag, b in g.auth_blocks.items():
+        if isinstance(b, M.InitEccAuthBlock):
+            opened.append((tag, "ecc", b.key_selector))
+        elif isinstance(b, M.UpdateAuthBlock):
+            opened.append((tag, "upd", b.version, bytes(b.config_security_code)))
+        elif isinstance(b, M.InitCustKeyAuthBlock):
+            opened.append((tag, "cust"))
+    return bytes(g.session_key), _content(g.bf3file), opened
+
+
+@proof("C04/bec2-fault-enumeration", functions=[(MOD2, "Bec2File.read_file"), (MOD2, "Bec2File.unpack_auth_blocks"),
+                                                (MOD2, "InitEccAuthBlock.unpack"), (MOD2, "UpdateAuthBlock.unpack"),
+                                                (MOD2, "InitCustKeyAuthBlock.unpack"), (MOD2, "AuthBlock.select_encryptor")],
+       family=fam_bec2_faults, bounded_only=True)
+def bec2_faults(vc):
+    M = vc.module(MOD2)
+    B = vc.module(MOD)
+    E = vc.module("bec2format.error")
+    shape, sel, version = vc._get("shape"), vc._get("sel"), vc._get("version")
+    sk, code, ckey = vc._get("sk"), vc._get("code"), vc._get("ckey")
+    fault, step = vc._get("fault"), vc.inputs.get("step", 1)
+    blocks = {"cust": lambda: M.InitCustKeyAuthBlock(), "ecc": lambda: M.InitEccAuthBlock(sel),
+              "upd": lambda: M.UpdateAuthBlock(code, version)}
+    encs = {"cust": lambda: M.SoftwareCustKeyEncryptor(ckey), "ecc": lambda: M.EccEncryptor(sel, _rcpt(sel).public_key),
+            "upd": lambda: M.ConfigSecurityCodeEncryptor(code)}
+    decs = [{"cust": lambda: M.SoftwareCustKeyEncryptor(ckey), "ecc": lambda: M.EccDecryptor(sel, _rcpt(sel)),
+             "upd": lambda: M.ConfigSecurityCodeEncryptor(code)}[k]() for k in shape]
+    if vc._get("decs") == "all-selectors":
+        # a reader holding one ECC key per selector (each selector its own key), the matching one not first
+        decs = [M.EccDecryptor(s, _rcpt(s)) for s in (3, 2, 1, 0)] + [d for d in decs if not isinstance(d, M.EccDecryptor)]
+    bf3 = B.Bf3File({"Creator": "x"}, [B.Bf3Component({0xC3: b"\x02"}, b"firmware" + bytes(9)),
+                                      B.Bf3Component({0xC3: b"\x03", 0xC2: b"\x02", 0xC1: b"\x03", 0xC5: b"\x01"},
+                                                     b"\x05\x01\x06\x20\x01\xff\x00", 7, encrypt_by_session_key=True)])
+    f = M.Bec2File(bf3, [blocks[k]() for k in shape], sk)
+    binary = f.to_binary([encs[k]() for k in shape])
+    hdr = len(binary) - len(bf3.to_binary(0, sk))
+
+    def read_text(t):
+        return vc.call(M.Bec2File.read_file, io.StringIO(t), list(decs), True)
+
+    def read(b):
+        return read_text("\n" + b.hex().upper() + "\n")
+
+    o = read(binary)
+    vc.prove("authentic-file-reads-back", o.returned and _bec2_view(M, o.value)[0] == sk
+             and len(_bec2_view(M, o.value)[2]) == len(shape), repr(o.exc))
+    if not o.returned:
+        return
+    orig = _bec2_view(M, o.value)
+
+    def ok(out):
+        if not out.returned:
+            return isinstance(out.exc, (E.FormatError, ValueError))
+        v = _bec2_view(M, out.value)
+        return v[0] == orig[0] and v[1] == orig[1] and all(b in orig[2] for b in v[2])
+
+    bad = []
+    if fault in ("header-bytes", "body-bytes"):
+        rng = range(0, hdr) if fault == "header-bytes" else range(hdr, len(binary), step)
+        for pos in rng:
+            old = binary[pos]
+            for new in {old ^ (1 << b) for b in range(8)} | {0x00, 0xFF, (old + 1) & 0xFF}:
+                if new == old:
+                    continue
+                out = read(binary[:pos] + bytes([new]) + binary[pos + 1:])
+                vc.tick()
+                if not ok(out):
+                    bad.append(("byte", pos, new, _why(out)))
+    elif fault == "prefixes":
+        for cut in range(0, len(binary), step):
+            out = read(binary[:cut])
+            vc.tick()
+            if not ok(out):
+                bad.append(("cut", cut, _why(out)))
+    elif fault == "suffixes":
+        import itertools
+        for n in (1, 2, 3):
+            for suf in itertools.product(b"\x00\xff0", repeat=n):
+                out = read(binary + bytes(suf))
+                vc.tick()
+                if not ok(out):
+                    bad.append(("suffix", bytes(suf).hex(), _why(out)))
+    elif fault == "text-prefixes":
+        s = io.StringIO()
+        f.write_file(s, [encs[k]() for k in shape])
+        text = s.getvalue()
+        o2 = read_text(text)
+        vc.prove("authentic-text-reads-back", o2.returned and _bec2_view(M, o2.value)[:2] == orig[:2], repr(o2.exc))
+        for cut in range(0, len(text), step):
+            out = read_text(text[:cut])
+            vc.tick()
+            if not ok(out):
+                bad.append(("textcut", cut, _why(out)))
+    vc.prove("damaged=>error-or-original[%s]" % fault, not bad, repr(bad[:3]))
